@@ -68,6 +68,16 @@ var kindProgs = []kindProg{
 		"(defun @f1 (p) (1+ (@f0 p)))",
 		"(defun @f2 (a) (@f1 (make-@s :x a)))"},
 		"(list (@f2 1) (@f2 7))", nil},
+	{"function-and-variable-of-one-name", []string{
+		"(defun @n () @n)",
+		"(defvar @n 7)",
+		"(defun @f0 (a) (list (@n) @n (+ a @n)))"},
+		"(list (@f0 1) (@f0 2))", nil},
+	{"function-and-constant-of-one-name", []string{
+		"(defun @m () @m)",
+		"(defconstant @m 9)",
+		"(defun @f0 () (list (@m) @m))"},
+		"(@f0)", nil},
 	{"constant-and-parameter", []string{
 		"(defconstant @k 7)",
 		"(defparameter *@p* 2)",
